@@ -53,7 +53,8 @@ struct In {
 static unsigned digit_at(const In &in, unsigned pos) { return (pos < NDIG) ? unsigned(in.d[pos] - C('0')) : 0U; }
 static void draw(In &in) {
     in.pl = vf_u8(); in.p0 = vf_any<C>(); in.p1 = vf_any<C>();
-    in.p = vf_u8(); in.fl = vf_u8(); in.cd = vf_u8(); in.ru = (vf_u8() & 1U) != 0U;
+    // a pinned precision (PMIN == PMAX: the long-padding queries) is a constant, so that the padding lengths fold
+    in.p = (PMIN == PMAX) ? unsigned(PMAX) : unsigned(vf_u8()); in.fl = vf_u8(); in.cd = vf_u8(); in.ru = (vf_u8() & 1U) != 0U;
     vf_assume(in.pl <= 2U && in.p <= PMAX && in.p >= PMIN && in.cd >= 1U && in.cd <= CDMAX + NDIG);
     unsigned i = 0;
     while (i < NDIG) { in.d[i] = vf_any<C>(); vf_assume(is_digit(in.d[i])); ++i; }
